@@ -82,6 +82,19 @@ def prS : Params ℚ := { prA with disableAccel := true, L0 := 1, maxIter := 3, 
 def rS (t0 : Option Nat) : Result ℚ Unit :=
   run OA (dirOf 1 3) PA () prS (stopAt t0) false [1, 1/2] [] [] [] [] [] 0 0
 
+/-- a direction oracle that always answers `q = 0`; with `linesearch_strictness_factor = 0` the step
+    `u + q = u` is accepted with `τ = 1` in every iteration: the iterate never changes -/
+def dirZero : Dir Unit ℚ where
+  lqr d _ _ _ := (d, [0, 0], 1/2)
+  applyMasked d _ _ _ := (d, true, [0, 0])
+  update d _ _ _ _ := (d, true)
+  reset d := d
+
+def prN : Params ℚ := { prA with gnInterval := 0, lsStrictness := 0, maxNoProgress := 2, maxIter := 20 }
+
+def rN : Result ℚ Unit :=
+  run OA dirZero PA () prN (stopAt none) false [1, 1/2] [] [] [] [] [] 0 0
+
 def rM : Result ℚ Unit :=
   run OA (dirOf 1 3) PA () prM (stopAt none) false [1, 1/2] [7] [8] [9] [] [] 0 0
 
